@@ -285,7 +285,7 @@ def _spell(r, conv, hand):
 # ------------------------------------------------------------------ 1. affine construction
 def _affine_cases(ctx, reqs, pend):
     from highdicom import spatial as sp
-    n = ctx.n(1300, 5000)
+    n = ctx.n(800, 5000)
     combos = list(itertools.product(CONVS_ALL, HANDS, (False, True), ('seq', 'scalar')))
     for i in range(n):
         r = ctx.rng('affine', i)
@@ -394,7 +394,7 @@ def _pts_int(r, k):
 
 def _transformer_cases(ctx, reqs, pend):
     from highdicom import spatial as sp
-    n = ctx.n(1000, 4000)
+    n = ctx.n(500, 4000)
     for i in range(n):
         r = ctx.rng('transf', i)
         pl = _plane(r)
@@ -562,7 +562,7 @@ def _batch_cases(ctx, reqs, pend):
     n rows in = n rows out, refusal exactly for the malformed shapes and - under the drop flag - exactly when one point lies more
     than half a slice off the plane (from the construction).  Model: the interpreter of the regenerated call specs (TC10g)."""
     from highdicom import spatial as sp
-    n = ctx.n(700, 2500)
+    n = ctx.n(600, 2500)
     classes = ['p2r', 'r2p', 'p2p', 'i2r', 'r2i', 'i2i']
     for i in range(n):
         r = ctx.rng('batch', i)
@@ -744,7 +744,7 @@ def _batch_cases(ctx, reqs, pend):
 # ------------------------------------------------------------------ 3. pixel-to-pixel / image-to-image
 def _pair_cases(ctx, reqs, pend):
     from highdicom import spatial as sp
-    n = ctx.n(900, 3500)
+    n = ctx.n(550, 3500)
     for i in range(n):
         r = ctx.rng('pair', i)
         a = _plane(r)
@@ -977,7 +977,7 @@ def _components_cases(ctx, reqs, pend):
     import highdicom as hd
     from highdicom import spatial as sp
     oris = _all_orientations()
-    n = ctx.n(1300, 4000)
+    n = ctx.n(800, 4000)
     for i in range(n):
         r = ctx.rng('comp', i)
         form = ['seq', 'scalar', 'int'][i % 3] if i < 30 else r.choice(['seq', 'seq', 'scalar', 'int'])
@@ -1116,7 +1116,7 @@ def _components_cases(ctx, reqs, pend):
 def _volume_attr_cases(ctx):
     """VolumeGeometry.from_attributes: accessors return what was given (oracle only; square roots)."""
     import highdicom as hd
-    n = ctx.n(350, 1000)
+    n = ctx.n(200, 1000)
     for i in range(n):
         r = ctx.rng('volattr', i)
         pl = _plane(r)
@@ -1200,7 +1200,7 @@ def _dataset_cases(ctx, reqs, pend):
     from gen import sources
     import copy
     from pydicom.sequence import Sequence as DSeq
-    n = ctx.n(300, 700)
+    n = ctx.n(190, 700)
     tcls = [sp.PixelToReferenceTransformer, sp.ReferenceToPixelTransformer, sp.ImageToReferenceTransformer,
             sp.ReferenceToImageTransformer]
 
@@ -1485,12 +1485,13 @@ def _describe(ds):
         d['total_origin'] = {'x': R(float(org.XOffsetInSlideCoordinateSystem)), 'y': R(float(org.YOffsetInSlideCoordinateSystem)),
                              'z': R(float(org.ZOffsetInSlideCoordinateSystem)) if 'ZOffsetInSlideCoordinateSystem' in org else None}
     if ds.get('DimensionOrganizationType', '') == 'TILED_FULL':
-        if str(ds.SOPClassUID) in (SEG_UID, LABELMAP_UID):
-            nch = 1 if ds.SegmentationType == 'LABELMAP' else len(ds.SegmentSequence)
-        else:
-            nch = int(ds.NumberOfOpticalPaths) if 'NumberOfOpticalPaths' in ds else len(ds.OpticalPathSequence)
+        # the RAW attributes the number of channels is derived from (the derivation itself is in the model, regenerated from the source)
         d['tiled_full'] = {'rows': int(ds.Rows), 'cols': int(ds.Columns), 'trows': int(ds.TotalPixelMatrixRows), 'tcols': int(ds.TotalPixelMatrixColumns),
-                           'channels': nch, 'planes': int(ds.TotalPixelMatrixFocalPlanes) if 'TotalPixelMatrixFocalPlanes' in ds else None}
+                           'sop_class': str(ds.SOPClassUID), 'segmentation_type': str(ds.SegmentationType) if 'SegmentationType' in ds else None,
+                           'segments': len(ds.SegmentSequence) if 'SegmentSequence' in ds else 0,
+                           'declared_paths': int(ds.NumberOfOpticalPaths) if 'NumberOfOpticalPaths' in ds else None,
+                           'path_items': len(ds.OpticalPathSequence) if 'OpticalPathSequence' in ds else 0,
+                           'planes': int(ds.TotalPixelMatrixFocalPlanes) if 'TotalPixelMatrixFocalPlanes' in ds else None}
     return d
 
 
@@ -1883,6 +1884,15 @@ def _tiled_multi_case(ctx, reqs, pend, r, pl, case, geo):
         _for_image_compare(reqs, pend, case, ds, f + 1, False, tol, desc)
     _for_image_compare(reqs, pend, case, ds, None, True, tol, desc)
     _for_image_compare(reqs, pend, case, ds, None, False, tol, desc)
+    if r.random() < 0.2:
+        # the same attributes under a SOP class iter_tiled_full_frame_data does not accept (Enhanced CT): frames refused, in code and model
+        import copy
+        other = copy.deepcopy(ds)
+        other.SOPClassUID = '1.2.840.10008.5.1.4.1.1.2.1'
+        st_o, _o = _call(sp.PixelToReferenceTransformer.for_image, other, frame_number=1)
+        if st_o == 'ok':
+            ctx.fail(dict(case, what='TILED_FULL frame of an image that is neither a slide image nor a segmentation'), 'accepted', site='for_image')
+        _for_image_compare(reqs, pend, dict(case, sop_class='enhanced ct'), other, 1, False, tol)
     # two-image constructors: frame -> total pixel matrix, total -> frame, frame -> the same tile in the next channel / focal plane.
     # Compared only where the coplanarity decision is far from its tolerance (planes exactly coplanar or a slice apart).
     nrm_z = float(np.cross(np.array(t['ori'][:3]), np.array(t['ori'][3:]))[2])
@@ -1911,7 +1921,7 @@ def _history_cases(ctx, reqs=None, pend=None):
     import copy
     from highdicom import spatial as sp
     from gen import sources
-    n = ctx.n(140, 340)
+    n = ctx.n(85, 340)
     tcls = _tcls()
 
     def plain_truth(r, pl, kind):
